@@ -2,6 +2,7 @@ package gen
 
 import (
 	"fmt"
+	"os"
 
 	"errsim/tape"
 )
@@ -296,6 +297,7 @@ func (g *Gen) fill(k Kind, depth int, hidden bool) *Node {
 	switch ki.Arity {
 	case Wrap:
 		n.Kids = []*Node{g.node(depth+1, hidden)}
+		g.correlate(n)
 	case Multi:
 		// mostly 2..4 branches; a multi-cause error with exactly one branch is
 		// legal too (errors.Join(e), a user multi-error with one cause)
@@ -320,6 +322,77 @@ func (g *Gen) fill(k Kind, depth int, hidden bool) *Node {
 	return n
 }
 
+// correlate relates the hidden error of a Mark / secondary-error node to the
+// node's visible cause, as programs do:
+//   - Mark(e, sentinel) where e already claims that sentinel through a type's
+//     own Is method (the mark is what makes the match survive transfer);
+//   - CombineErrors(e, e') where e' is another occurrence of the same failure:
+//     same constructors and messages, different annotations.
+func (g *Gen) correlate(n *Node) {
+	switch n.K {
+	case WMark:
+		if !g.T.Bool(1, 3) {
+			return
+		}
+		claimed := -1
+		n.Kids[0].Walk(func(x *Node, hidden bool) {
+			if hidden {
+				return
+			}
+			switch x.K {
+			case LUIs:
+				claimed = 11 // HarnessSentinel
+			case LUIsStd:
+				claimed = 7 // os.ErrNotExist
+			case LErrno:
+				switch x.N[0] {
+				case 0:
+					claimed = 7 // ENOENT -> os.ErrNotExist
+				case 1:
+					claimed = 6 // EEXIST -> os.ErrExist
+				case 2, 3:
+					claimed = 5 // EACCES, EPERM -> os.ErrPermission
+				}
+			}
+		})
+		if claimed >= 0 {
+			n.Hid[0] = &Node{K: LSentinel, N: []int{claimed}}
+		}
+	case WSecondary, WCombine:
+		if !g.T.Bool(1, 4) {
+			return
+		}
+		c := cloneNode(n.Kids[0])
+		c.Walk(func(x *Node, _ bool) {
+			switch x.K {
+			case WTelemetry, WHint, WDetail, WIssueLink, WSafeDetails:
+				for i := range x.S {
+					if x.S[i].Tok != "" {
+						x.S[i] = g.SG.Str(x.S[i].Safe)
+					}
+				}
+			}
+		})
+		n.Hid[0] = c
+	}
+}
+
+func cloneNode(n *Node) *Node {
+	c := *n
+	c.S = append([]Str(nil), n.S...)
+	c.A = append([]Arg(nil), n.A...)
+	c.T = append([]Tag(nil), n.T...)
+	c.N = append([]int(nil), n.N...)
+	c.Kids, c.Hid = nil, nil
+	for _, k := range n.Kids {
+		c.Kids = append(c.Kids, cloneNode(k))
+	}
+	for _, h := range n.Hid {
+		c.Hid = append(c.Hid, cloneNode(h))
+	}
+	return &c
+}
+
 // Build constructs the real error for a spec.
 func Build(n *Node) error { return (&Builder{}).Build(n) }
 
@@ -336,6 +409,9 @@ type Builder struct {
 
 // Build constructs the real error for a spec. It panics on a harness bug.
 func (b *Builder) Build(n *Node) error {
+	if os.Getenv("ERRSIM_DEBUG") != "" {
+		fmt.Fprintln(os.Stderr, "BUILD", n.Expr())
+	}
 	if b.MarkRefs == nil {
 		b.MarkRefs = map[error]error{}
 		b.Built = map[*Node]error{}
@@ -391,4 +467,40 @@ func (b *Builder) buildNode(n *Node) error {
 	}
 	b.Built[n] = e
 	return e
+}
+
+// DeepChain builds a chain of n simple library wrappers over a leaf (depth
+// guards, quadratic formatting, recursion limits).
+func (g *Gen) DeepChain(n int) *Node {
+	cur := &Node{K: LNew, S: []Str{g.SG.Str(true)}}
+	for i := 0; i < n; i++ {
+		var w *Node
+		// only wrappers that are O(1) to encode and to render: a chain of
+		// wrappers without registered encoder costs O(n^3) to encode
+		// (extractPrefix renders the whole chain at every level), and
+		// wrappers rendered through formatSimple re-enter Error() at every
+		// level (exponential in the library itself)
+		if i%2 == 0 {
+			w = &Node{K: WMessage, S: []Str{{V: fmt.Sprintf("l%d", i), Safe: true}}}
+		} else {
+			w = &Node{K: WAssert}
+		}
+		w.Kids = []*Node{cur}
+		cur = w
+	}
+	return cur
+}
+
+// WideTree builds a multi-cause tree with many leaf-encoded nodes: either
+// one Join of n branches or a balanced tree of Joins with the given fan-out
+// and depth.
+func (g *Gen) WideTree(fanout, depth int) *Node {
+	if depth == 0 {
+		return &Node{K: LNew, S: []Str{g.SG.Str(true)}}
+	}
+	n := &Node{K: MJoin, N: []int{0}}
+	for i := 0; i < fanout; i++ {
+		n.Kids = append(n.Kids, g.WideTree(fanout, depth-1))
+	}
+	return n
 }
